@@ -788,14 +788,18 @@ class Variant(productmd.composeinfo.VariantBase):
                 self.add(variant)
 
     def deserialize_1_0(self, parser, uid, addon=False):
-        self.id = parser.get(self._section, "id")
-        self.uid = parser.get(self._section, "uid")
-        self.name = parser.get(self._section, "name")
-        self.type = parser.get(self._section, "type")
+        # the section name depends on uid and type; keep reading the section we started with
+        section = self._section
+        self.id = parser.get(section, "id")
+        self.uid = parser.get(section, "uid")
+        if self.uid != uid:
+            raise ValueError("Section '%s' describes variant UID '%s' instead of '%s'" % (section, self.uid, uid))
+        self.name = parser.get(section, "name")
+        self.type = parser.get(section, "type")
 
         # child addons
-        if parser.has_option(self._section, "addons"):
-            variant_uids = [i for i in parser.get(self._section, "addons").split(",") if i]
+        if parser.has_option(section, "addons"):
+            variant_uids = [i for i in parser.get(section, "addons").split(",") if i]
             for variant_uid in variant_uids:
                 variant = Variant(self._metadata)
                 variant.deserialize(parser, variant_uid, addon=True)
